@@ -777,7 +777,7 @@ def program(case):
                 t2, k2, v2 = ACTIONS[case["stage2"][i]]
                 second = ["  match $a.Finished()", f'  start {t2}({k2}="{v2}2")']
             if (case.get("via_when") or [False] * len(case["flows"]))[i]:
-                lines += deco + [f"flow c{i}"] + prio + [f"  match Ev({args})", f"  when {act}", f"    send ActionDone{i}()", f"  match Never{i}()", ""]
+                lines += deco + [f"flow c{i}"] + prio + [f"  match Ev({args})", f"  when {act}", "    send WhenDone()", f"  match Never{i}()", ""]
             else:
                 lines += deco + [f"flow c{i}"] + prio + [f"  match Ev({args})", f"  start {act} as $a"] + second + [f"  match Never{i}()", ""]
     if case.get("stop") is not None:
@@ -971,7 +971,34 @@ def _prop(case):
             stage2_done = True
             if len(winners1) >= 2:
                 nt = True
+    when_done = False
+    via_when = case.get("via_when") or []
+    if any(via_when) and not case.get("stage2") and not case["wrapped"] and not chained:
+        # flows that reached their action through `when <Action>` proceed for good: when the action they started or share finishes,
+        # their `when` case completes (they must not fail on the Finished event of a shared action)
+        started_now = [e for e in out if _is_start(e)]
+        keys_now = {_start_key(e) for e in started_now}
+        waiting = [i for i in range(len(flows)) if i < len(via_when) and via_when[i] and observed.get(i) == "started" and sc[i] > 0 and i != stopped_by_supervisor and _aid_key(aid[i]) in keys_now]
+        if waiting:
+            # every started action finishes (one loop may have started the same action as another loop: all of them)
+            seen3 = set()
+            for e0 in started_now:
+                seen3 |= {e["type"] for e in smh.feed(state, smh.ev(e0["type"][5:] + "Finished", action_uid=e0["action_uid"], is_success=True))}
+            status3 = {}
+            for fs in state.flow_states.values():
+                if fs.flow_id.startswith("c") and fs.flow_id[1:].isdigit():
+                    status3.setdefault(int(fs.flow_id[1:]), []).append(fs.status.value)
+            for i in waiting:
+                # (all of them send the identical event WhenDone next, so they all proceed again)
+                if "WhenDone" not in seen3 or (status3.get(i) or ["missing"])[-1] != "started":
+                    raise Violation(
+                        "co-winner-does-not-proceed-after-action-finished",
+                        f"{desc}: c{i} started/shared {_key_text(_aid_key(aid[i]))} through `when <Action>` and was still running; after the Finished events of all started actions it is {(status3.get(i) or ['missing'])[-1]} (events {sorted(seen3)})",
+                    )
+            when_done = True
     labels = [f"n{len(flows)}", f"loops{len(groups)}", "chained" if chained else "wrapped" if case["wrapped"] else "direct"]
+    if when_done:
+        labels.append("when-action-finished-afterwards")
     if chained:
         labels += sorted(chain_labels)
         links = [link for form in case["forms"] for link in form.get("links", [])]
